@@ -279,8 +279,7 @@ class C11(RS.StepProp):
         return impl
 
     def known_class(self, case, impl, code):
-        if case['kind'] == 0 and impl.get('class') and code in (2, 3, 4):
-            return 'virtual_not_last'
+        # class virtual_not_last was repaired in /repo fa307dd (fragid := the coarse key): nothing is excused
         return None
 
     def describe(self, case):
@@ -299,7 +298,7 @@ class C11(RS.StepProp):
         if impl['orig'].get('exc'):
             return tag + ':original-not-resolvable'
         return '%s:%s%s%s' % (tag, 'level%d:' % case['level'] if case.get('level') else '', '+'.join(sorted(set(case.get('ops', ['corpus'])))),
-                            ':virtual-not-last' if impl['class'] else '')
+                            ':virtual-before-real' if impl['class'] else '')
 
 
 PROP = C11()
